@@ -411,8 +411,9 @@ theorem fetchV_arr_gen {tag : ElemT} {xs : List Val} {b : Val} {ki : Kind} (Q : 
 
 /-! ### identifiers and `#` -/
 
-/-- the environment value holds, under every name the checker types as a scalar or a slice of scalars,
-a value of that type -/
+/-- the environment value holds, under every name whose type `vtyOf` classifies (scalar, slice of scalars or
+of structs, `[]interface{}`, struct or pointer to struct, `map[string]interface{}`, interface), a value of
+that type (`ValOfV`; for structs: `Conf` to every depth) -/
 def EnvConforms2 (cfg : CheckCfg) (env : Val) : Prop :=
   ∀ name ns τ V, identRule cfg name ns = .ok τ → vtyOf τ = some V →
     ∃ v, fetchV env (.str name) ns = .ok v ∧ ValOfV v V
